@@ -35,7 +35,8 @@ LEVEL_TEXT = (
     "on global event numbers: identity per key and cache epoch, no exception "
     "in fault-free runs, fresh-but-equal nocache/instance results, fully "
     "built zones, equality laws, retention bounds, no caching of local "
-    "zones or None, liveness. Sampling, not enumeration.")
+    "zones or None, liveness. Sampling, not enumeration."
+    ' Session 3 added: pickles read back by a process that has built no zone yet (fresh-process oracle), strong-cache sizes 0-2 for all three factories, copies of file zones under file faults, fixed-offset file zones, zero-offset local settings, calibrated pre-emption points.')
 LEVEL_NOTE = (
     "Trusted: SimLock as a model of _thread.lock; line-granularity "
     "pre-emption in tz/_factories.py, tz/tz.py (and weakref.py in the deep "
